@@ -133,7 +133,9 @@ def builder_scenario(chk, multi, fn_order=("b", "a")):
             b.add_kernel(gs.RWKernel(["a"]))
             b.add_kernel(gs.RWKernel(["b"]))
             b.set_epochs([gs.EpochConfig(gs.EpochType.INITIAL_VALUES, 1, 1, None), gs.EpochConfig(gs.EpochType.POSTERIOR, 2, 1, None)])
-            fns = {"b": lambda key, v: v + 0.5 * jax.random.uniform(key, v.shape), "a": lambda key, v: v + 2.0 * jax.random.uniform(key, v.shape)}
+            # "a": ONE scalar draw per call, added to every component (a jitter function sees one chain's value and one key);
+            # "b": element-wise
+            fns = {"b": lambda key, v: v + 0.5 * jax.random.uniform(key, v.shape), "a": lambda key, v: v + 2.0 * jax.random.uniform(key, ()) * jnp.ones_like(v)}
             b.set_jitter_fns({k: fns[k] for k in fn_order})
             b.build()
         finally:
@@ -169,11 +171,16 @@ def builder_obligations(chk, multi):
                 n = int(np.prod(np.shape(got), dtype=int)) if np.shape(got) else 1
                 alts = []
                 for d in uni:
-                    # batched draw: leading dim = chain
+                    # batched draw: leading dim = chain (one key per chain)
                     o = d["out"]
-                    if o.shape[0] != C or int(np.prod(o.shape[1:], dtype=int) if o.ndim > 1 else 1) != n:
+                    if o.ndim < 1 or o.shape[0] != C or len(d["keys"]) != C:
                         continue
-                    alts.append(z3.And(*[gc == ic + scale[kname] * uc for gc, ic, uc in zip(cells(got), cells(init), cells(o[c]))]))
+                    m_ = int(np.prod(o.shape[1:], dtype=int)) if o.ndim > 1 else 1
+                    if m_ == n:
+                        alts.append(z3.And(*[gc == ic + scale[kname] * uc for gc, ic, uc in zip(cells(got), cells(init), cells(o[c]))]))
+                    elif m_ == 1:       # one scalar draw per chain, broadcast over the components
+                        uc = cells(o[c])[0]
+                        alts.append(z3.And(*[gc == ic + scale[kname] * uc for gc, ic in zip(cells(got), cells(init))]))
                 goals.append(z3.Or(*alts) if alts else z3.BoolVal(False))
         return [], z3.And(*goals)
     obs.append(Obligation(f"[{tag}] the state handed to the engine (= first recorded sample) of every chain is its supplied initial value after the configured jitter function of that key, drawn with a key of its own",
